@@ -1,6 +1,7 @@
 package harness
 
 import (
+	"bytes"
 	"encoding/binary"
 	"fmt"
 	"math"
@@ -231,6 +232,11 @@ func genC14(r *Rand, tier string) *Case {
 		stream = append(stream, r.Bytes(r.Range(1, 9))...)
 		end = "any"
 	}
+	if len(stream) >= 19 && bytes.HasPrefix(stream, pgwire.CopySignature) && r.Chance(1, 6) {
+		// header flags: bits 0-15 signal backwards-compatible format issues and
+		// are ignored by readers (the critical half, bits 16-31, stays zero)
+		binary.BigEndian.PutUint32(stream[len(pgwire.CopySignature):], uint32(r.PickInt(1, 1<<7, 1<<15, 0x0101, 0xffff, 0x8000)))
+	}
 	// chunking is the schedule
 	var pieces []int
 	switch r.Intn(6) {
@@ -407,7 +413,7 @@ func checkC14(x *Exec, c *Case) ([]Violation, bool) {
 func init() {
 	register(&Prop{
 		ID: "C14", Level: "exploration", QuickS: 25, ThoroughS: 420,
-		Rule:       "binary COPY streams (signature, flags, header extension area of 0-40 bytes, tuples, optional -1 trailer) produced by the independent encoder for tables of 1-5 columns over the covered types and 0-6 rows with NULLs anywhere; the chunking into CopyData messages is the schedule: for three short table shapes (stream <= 48 bytes), with and without trailer, EVERY split into 2 and into 3 CopyData messages is enumerated, plus whole-stream and one-byte-per-message; seeded cases use 1-byte messages, cuts inside the header, cuts exactly at row boundaries, random pieces incl. empty CopyData messages, on top of transport segmentation; corruptions: field count +1 / -1 / 0x7FFF / negative other than the -1 trailer, value length beyond the stream, truncated last row, garbage after the trailer; the rows returned by BinaryCopyReader.Read are compared with the encoded rows (value by value through the canonical form), the end of data must be io.EOF, a corruption must be an error and never a row, and the query after the COPY must be served; small message limits (256/1024) with fields of 0.5-5x the limit cut into CopyData messages that each fit; a quarter of the handlers read every row under a context that turns cancelled while the row is read and read again with their live context; non-trivial = the row reader was driven at least once; distinct = distinct case content hashes",
+		Rule:       "binary COPY streams (signature, flags - in a sixth of the seeded cases with bits of the non-critical half 0-15 set, which readers ignore -, header extension area of 0-40 bytes, tuples, optional -1 trailer) produced by the independent encoder for tables of 1-5 columns over the covered types and 0-6 rows with NULLs anywhere; the chunking into CopyData messages is the schedule: for three short table shapes (stream <= 48 bytes), with and without trailer, EVERY split into 2 and into 3 CopyData messages is enumerated, plus whole-stream and one-byte-per-message; seeded cases use 1-byte messages, cuts inside the header, cuts exactly at row boundaries, random pieces incl. empty CopyData messages, on top of transport segmentation; corruptions: field count +1 / -1 / 0x7FFF / negative other than the -1 trailer, value length beyond the stream, truncated last row, garbage after the trailer; the rows returned by BinaryCopyReader.Read are compared with the encoded rows (value by value through the canonical form), the end of data must be io.EOF, a corruption must be an error and never a row, and the query after the COPY must be served; small message limits (256/1024) with fields of 0.5-5x the limit cut into CopyData messages that each fit; a quarter of the handlers read every row under a context that turns cancelled while the row is read and read again with their live context; non-trivial = the row reader was driven at least once; distinct = distinct case content hashes",
 		Exhaustive: "all 2-piece and 3-piece splits of the encoded stream for 3 table shapes x {trailer, no trailer} (streams <= 48 bytes)",
 		Components: e1Components, Assumptions: commonAssumptions,
 		Fixed: c14Fixed, Gen: genC14, Check: checkC14,
